@@ -261,6 +261,310 @@ def given_names(rng, n):
     return rng.sample(pool, n)
 
 
+# ------------------------------------------------------------------ names used verbatim inside composed names (oracle)
+# The names that enter a stage - DataFrame columns, or the names an earlier stage generated - are arbitrary strings:
+# 'cart pos', 'a*b', 'x^2', 'f(x, y)', 'D1(x0)', 'R_0(x, u)'.  A stage has to use them VERBATIM as the atoms of the
+# expressions it composes, and the composed name still has to denote the column.  The reader below therefore does not
+# tokenise: at an atom position it tries every input name as a literal prefix (blanks, '*', '^', commas, parentheses
+# included) next to the constant / cos / sin / delay forms, keeps every possible reading, and a name is accepted when
+# SOME reading of it reproduces the column (so an ambiguous name can never raise a false alarm).
+
+SPECIAL_POOL = ['cart pos', 'cart vel', 'motor V', 'a*b', 'x^2', 'th^2 dot', 'f(x, y)', 'g(t)', 'D1(x0)', 'cos(th)',
+                'sin (q)', 'q, w', '(p)', 'k 1', '2*pi t', 'x0', 'u0', 'x1', 'ep', 'R_0(x, u)', 'z_1(x, u)', 'v [m/s]',
+                'i_d (A)', 'pos*', '^w', 'a b c', ' lead', 'trail ', 'x_{0}', '\\theta', 'D_{1}(y)', 'alpha', 'beta',
+                'x 2^3', 'p*q r', 'y^{2}', 'w, (z)']
+SPECIAL_CHARS = [' ', ' ', '*', '^', ',', '(', ')', '_', '{', '}', '.', '-', '+', '/', ':', '\\']
+LETTERS = list('abcdkpqtuvwxyzDRT0123')
+
+
+def special_names(rng, n, force=False):
+    """n distinct column names, most of them with characters that the naming code might treat specially"""
+    for _ in range(100):
+        out = []
+        for _j in range(n):
+            if rng.random() < 0.65:
+                nm = rng.choice(SPECIAL_POOL)
+            else:
+                nm = ''.join(rng.choice(SPECIAL_CHARS) if rng.random() < 0.35 else rng.choice(LETTERS)
+                             for _k in range(rng.randint(1, 7)))
+            out.append(nm)
+        if force:
+            # at least one blank and one of the other special characters somewhere among the non-episode names
+            out[-1] = rng.choice([p for p in SPECIAL_POOL if ' ' in p])
+            out[rng.randrange(n)] = rng.choice([p for p in SPECIAL_POOL if ' ' in p or '*' in p or '^' in p or '(' in p])
+        if len(set(out)) == n and all(o.strip() for o in out):
+            return out
+    return [f'col {j}' for j in range(n)]
+
+
+class Undecided(Exception):
+    pass
+
+
+class VerbatimReader:
+    """all readings of `text` as  expr := factor (TIMES factor)* ; factor := atom [^k] ; atom := <an input name, verbatim>
+    | 1 | cos(expr) | sin(expr) | Dk(expr)   in the plain-text or the LaTeX spelling.  A reading is a function
+    (t, get) -> value where get(j, t) is input column j at time t of the episode."""
+
+    def __init__(self, text, atoms, latex=False):
+        self.s = text
+        self.atoms = atoms            # [(name, column index)]
+        self.latex = latex
+        self.memo = {}
+        self.made = 0
+        self.times = ' ' if latex else '*'
+        self.pow = re.compile(r'\^\{(\d+)\}' if latex else r'\^(\d+)')
+        self.delay = re.compile(r'D_\{(\d+)\}\(' if latex else r'D(\d+)\(')
+        self.trig = [('\\cos{(', ')}', math.cos), ('\\sin{(', ')}', math.sin)] if latex else \
+                    [('cos(', ')', math.cos), ('sin(', ')', math.sin)]
+
+    def _tick(self, n=1):
+        self.made += n
+        if self.made > 4000:
+            raise Undecided()
+
+    def readings(self):
+        return [f for p, f in self.expr(0) if p == len(self.s)]
+
+    def expr(self, pos):
+        key = ('e', pos)
+        if key not in self.memo:
+            out = []
+            for p1, f in self.factor(pos):
+                out.append((p1, f))
+                if self.s.startswith(self.times, p1):
+                    for p2, g in self.expr(p1 + len(self.times)):
+                        out.append((p2, lambda t, get, f=f, g=g: f(t, get) * g(t, get)))
+                self._tick(len(out))
+            self.memo[key] = out
+        return self.memo[key]
+
+    def factor(self, pos):
+        out = []
+        for p1, a in self.atom(pos):
+            out.append((p1, a))
+            m = self.pow.match(self.s, p1)
+            if m:
+                k = int(m.group(1))
+                out.append((m.end(), lambda t, get, a=a, k=k: a(t, get) ** k))
+        return out
+
+    def atom(self, pos):
+        key = ('a', pos)
+        if key in self.memo:
+            return self.memo[key]
+        s, out = self.s, []
+        for name, j in self.atoms:
+            if s.startswith(name, pos):
+                out.append((pos + len(name), lambda t, get, j=j: get(j, t)))
+        if s.startswith('1', pos):
+            out.append((pos + 1, lambda t, get: 1.0))
+        for head, tail, fn in self.trig:
+            if s.startswith(head, pos):
+                for p1, e in self.expr(pos + len(head)):
+                    if s.startswith(tail, p1):
+                        out.append((p1 + len(tail), lambda t, get, e=e, fn=fn: fn(e(t, get))))
+        m = self.delay.match(s, pos)
+        if m:
+            k = int(m.group(1))
+            for p1, e in self.expr(m.end()):
+                if s.startswith(')', p1):
+                    out.append((p1 + 1, lambda t, get, e=e, k=k: e(t - k, get)))
+        self._tick(len(out))
+        self.memo[key] = out
+        return out
+
+
+def _stage_mode(sp):
+    if sp is None:
+        return 'expr'
+    if sp['k'] in ('rbf', 'kernel'):
+        return 'append'
+    if sp['k'] == 'sk':
+        return 'wrap'
+    if pipes.kinds_in(sp) <= set(ORACLE_KINDS) | {'pipe', 'split'} and multiplicative_depth(sp) <= 1:
+        return 'expr'
+    return None
+
+
+def _close(v, w):
+    return math.isclose(v, w, rel_tol=1e-9, abs_tol=1e-12)
+
+
+def _check_stage(mode, prev_names, cur_names, P, T, ep, latex, where):
+    """the names after a stage are expressions over the names in front of it (used verbatim), and each denotes its column:
+    P / T are the data in front of / behind the stage"""
+    e = 1 if ep else 0
+    if len(cur_names) != T.shape[1]:
+        return f'{where}: {len(cur_names)} names for {T.shape[1]} columns'
+    if ep and cur_names[0] != prev_names[0]:
+        return f'{where}: the episode column {prev_names[0]!r} is renamed {cur_names[0]!r}'
+    if mode is None:
+        return None
+    prev, cur = prev_names[e:], cur_names[e:]
+    eps_p, eps_t = st.episodes(P, ep), st.episodes(T, ep)
+    if mode == 'wrap':
+        for a, b in zip(prev, cur):
+            head = b[:-(len(a) + 2)] if b.endswith('(' + a + ')') else None
+            if head is None or not re.fullmatch(r'\\mathrm\{[A-Za-z_]\w*\}' if latex else r'[A-Za-z_]\w*', head):
+                return f'{where}: the wrapped column is named {b!r}, which is not <transformer>({a}) with the input name {a!r} verbatim'
+        return None
+    if mode == 'append':
+        n = len(prev)
+        if cur[:n] != prev:
+            return f'{where}: the columns passed through unchanged are named {cur[:n]}, their names were {prev}'
+        for l, Te in eps_t.items():
+            Pe = eps_p.get(l)
+            if Pe is not None and Pe.shape[0] == Te.shape[0] and not np.allclose(Pe, Te[:, :n], rtol=1e-12, atol=0, equal_nan=True):
+                return f'{where}: the columns named {prev} do not hold the unchanged input columns'
+        if len(set(cur[n:])) != len(cur[n:]):
+            return f'{where}: the names of the appended columns are not distinct: {cur[n:]}'
+        return None
+    atoms = sorted(((nm, j) for j, nm in enumerate(prev)), key=lambda a: -len(a[0]))
+    for c, name in enumerate(cur):
+        try:
+            fs = VerbatimReader(name, atoms, latex).readings()
+        except (Undecided, RecursionError):
+            continue                    # too many readings to enumerate: undecided, not a failure
+        if not fs:
+            return (f'{where}: column {c} is named {name!r}, which is not an expression over the input names {prev} used '
+                    'verbatim')
+        alive, shown = list(fs), None
+        for l, Te in eps_t.items():
+            Pe = eps_p.get(l)
+            if Pe is None or Te.shape[0] == 0:
+                continue
+            off = Pe.shape[0] - Te.shape[0]
+
+            def get(j, t, Pe=Pe):
+                if t < 0 or t >= Pe.shape[0]:
+                    raise IndexError(t)
+                return float(Pe[t, j])
+            for r in sorted({0, Te.shape[0] // 2, Te.shape[0] - 1}):
+                want = float(Te[r, c])
+                if not math.isfinite(want):
+                    continue
+                keep = []
+                for f in alive:
+                    try:
+                        v = f(r + off, get)
+                    except (IndexError, OverflowError, ValueError, ZeroDivisionError):
+                        v = None
+                    if v is not None and _close(v, want):
+                        keep.append(f)
+                    elif shown is None:
+                        shown = (l, r + off, v, want)
+                alive = keep
+                if not alive:
+                    l0, t0, v, want = shown
+                    return (f'{where}: column {c} is named {name!r} but no reading of that expression over the input names '
+                            f'{prev} (used verbatim) gives the column: at episode {l0}, time {t0} the expression gives {v!r}, '
+                            f'the column holds {want!r}')
+    return None
+
+
+def oracle_verbatim(case):
+    """stage by stage: the names behind stage i (the output names of the pipeline cut after stage i) must be expressions
+    over the names in front of it - DataFrame names or whatever the earlier stages generated, whatever characters they
+    contain - used verbatim, and evaluating them on the data in front of the stage must give the data behind it.  Plain
+    text and LaTeX.  Names given through a DataFrame come back verbatim; a frame with one altered name is rejected."""
+    spec, nu, ep = case['spec'], case['nu'], case['ep']
+    X = np.asarray(st.X_of(case), dtype=float)
+    given = case.get('given')
+    Xfit = pandas.DataFrame(X, columns=given) if given else X
+    try:
+        est = pipes.fit(spec, Xfit, nu, ep)
+    except Exception:
+        return None
+    stages = list(spec['ss']) if spec['k'] == 'pipe' else [spec]
+    Xt = np.asarray(est.transform(Xfit), dtype=float)
+    datas = [X]
+    if spec['k'] == 'pipe' and stages:
+        for _, lf in est.lifting_functions_:
+            datas.append(np.asarray(lf.transform(datas[-1]), dtype=float))
+        datas[-1] = Xt
+    else:
+        datas.append(Xt)
+    if not stages:
+        stages = [None]
+    cuts = [None]
+    for i in range(1, len(stages)):
+        try:
+            cuts.append(pipes.fit({'k': 'pipe', 'ss': stages[:i]}, Xfit, nu, ep))
+        except Exception:
+            return None
+    cuts.append(est)
+    for latex in (False, True):
+        fmt = 'latex' if latex else None
+        names = [list(est.get_feature_names_in(format=fmt))] + [list(c.get_feature_names_out(format=fmt)) for c in cuts[1:]]
+        if given and names[0] != list(given):
+            return f'names given through a DataFrame {given} are not used verbatim: get_feature_names_in(format={fmt}) = {names[0]}'
+        for i in range(1, len(names)):
+            where = (f'stage {i} of {len(stages)} ({"identity" if stages[i - 1] is None else stages[i - 1]["k"]}), '
+                     f'{"latex" if latex else "plaintext"}')
+            why = _check_stage(_stage_mode(stages[i - 1]), names[i - 1], names[i], datas[i - 1], datas[i], ep, latex, where)
+            if why:
+                return why
+    if given:
+        j = len(given) - 1
+        for alt in (given[j] + ' ', given[j].replace(' ', '*') if ' ' in given[j] else given[j] + '*'):
+            if alt in given:
+                continue
+            other = pandas.DataFrame(X, columns=given[:j] + [alt])
+            try:
+                est.transform(other)
+                return f'fitted on columns {given}, transform accepted a DataFrame whose last column is named {alt!r}'
+            except ValueError:
+                pass
+    return None
+
+
+def verbatim_family(rng):
+    """every kind of stage in front of every kind of name-composing stage, with generated names and with DataFrame names
+    that contain blanks / operators / parentheses"""
+    firsts = [None,
+              {'k': 'rbf', 'centers': 'data', 'rbf': 'gaussian', 'shape': 1, 'seed': 3, 'n': 2, 'n_out': 2},
+              {'k': 'kernel', 'method': 'rff', 'n': 2, 'seed': 5, 'rff_method': 'weight_offset', 'kernel': 'gaussian', 'n_out': 2},
+              {'k': 'delay', 'dx': 1, 'du': 1}, {'k': 'angle', 'feat': [0]}, {'k': 'sk', 'scaler': 'standard'},
+              {'k': 'const'}, {'k': 'bilinear'}, {'k': 'poly', 'order': 2, 'io': False}]
+    seconds = [{'k': 'poly', 'order': 1, 'io': False}, {'k': 'poly', 'order': 2, 'io': False}, {'k': 'poly', 'order': 3, 'io': True},
+               {'k': 'bilinear'}, {'k': 'delay', 'dx': 1, 'du': 0}, {'k': 'angle', 'feat': [1]}, {'k': 'const'},
+               {'k': 'sk', 'scaler': 'maxabs'},
+               {'k': 'split', 'a': [{'k': 'poly', 'order': 2, 'io': False}], 'b': [{'k': 'delay', 'dx': 0, 'du': 1}]}]
+    for first in firsts:
+        for second in seconds:
+            dims = [(2, 1)] + ([(1, 0)] if (first or {}).get('k') in ('rbf', 'kernel') else [])
+            for nx, nu in dims:
+                if nu == 0 and second['k'] in ('bilinear', 'split', 'angle'):
+                    continue
+                for named in (False, True):
+                    first_ = dict(first, n_feat=nx + nu) if first and first['k'] == 'rbf' else first
+                    ss = ([first_] if first_ else []) + [second]
+                    spec = ss[0] if (len(ss) == 1 and rng.random() < 0.5) else {'k': 'pipe', 'ss': ss}
+                    ep = rng.random() < 0.5
+                    m = pipes.loss(spec) + 2
+                    labels = [0, 3] if ep else [0]
+                    rows = [([l] if ep else []) + [round(rng.uniform(-2, 2), 3) for _ in range(nx + nu)]
+                            for l in labels for _ in range(m + 1)]
+                    c = {'spec': spec, 'nx': nx, 'nu': nu, 'ep': ep, 'rows': rows, 'min_len': m, 'form': 'c',
+                         'degenerate': False, 'verbatim': True}
+                    if named:
+                        c['given'] = special_names(rng, nx + nu + (1 if ep else 0), force=True)
+                    yield c
+
+
+def verbatim_random(rng):
+    c = st.gen_case(rng, KINDS, max_depth=2, cap=30, opaque=True)
+    c['verbatim'] = True
+    if rng.random() < 0.6:
+        c['given'] = special_names(rng, c['nx'] + c['nu'] + (1 if c['ep'] else 0), force=rng.random() < 0.5)
+    return c
+
+
+def verbatim_tags(c):
+    return {'part': 'verbatim', 'kinds': sorted(pipes.kinds_in(c['spec'])), 'names': 'dataframe' if c.get('given') else 'generated'}
+
+
 def oracle(case, est=None):
     """the name-evaluating oracle under the default configuration and - the documented way to speed up prediction - with
     `skip_validation=True` (a fresh fit inside the context): names must describe the columns on both routes"""
@@ -314,10 +618,16 @@ def run(ctx):
                 'generated or DataFrame-supplied input names): get_feature_names_out compared verbatim with the Lean '
                 'names model; oracle: a parser for the plaintext grammar evaluates every name on the data (delays per '
                 'episode) and compares with the column, on algebraic + angle pipelines with unambiguous products; '
-                'DataFrame names verbatim and mismatching column names rejected')
+                'DataFrame names verbatim and mismatching column names rejected; names with blanks / * / ^ / commas / '
+                'parentheses (DataFrame columns such as "cart pos", "f(x, y)", or names generated by an earlier stage such as '
+                '"R_0(x, u)", "D1(x0)") checked stage by stage: every kind of stage in front of every name-composing stage + '
+                'random trees, both formats - the names behind a stage are read as expressions whose atoms are the names in '
+                'front of it taken verbatim and must evaluate to the column')
     ctx.explanation = ('theorems C19_*: names of row-wise stages are the generic row function at the string instance; one '
                        'name per column; delay block i names D_i(.) and holds the data delayed by i; symbols_only / '
-                       'episode-name / given-names rules; correspondence verbatim; oracle evaluates names as expressions')
+                       'episode-name / given-names rules; correspondence verbatim; oracle evaluates names as expressions; a second '
+                       'reader matches input names literally (no tokenising), keeps every reading of an ambiguous name and '
+                       'accepts a column when some reading reproduces it, so arbitrary strings can be input names')
     ctx.proof_obligations('Properties.C19', THEOREMS)
     drv = ctx.get_driver()
     lines, meta = [], []
@@ -379,6 +689,17 @@ def run(ctx):
         if why:
             ctx.fail(why, c, {'kinds': sorted(pipes.kinds_in(c['spec']))})
             break
+    # names with special characters (DataFrame columns, names generated by an earlier stage) used verbatim downstream
+    n_fail = len(ctx.failures)
+    fam = list(verbatim_family(ctx.rng))
+    for c in fam + [verbatim_random(ctx.rng) for _ in range(ctx.n(60, 700))]:
+        why = oracle_verbatim(c)
+        ctx.count('verbatim names: ' + ('DataFrame names with special characters' if c.get('given') else 'generated names, stage by stage'))
+        ctx.record_case({k: c.get(k) for k in ('spec', 'nx', 'nu', 'ep', 'given')}, True)
+        if why:
+            ctx.fail(why, c, verbatim_tags(c))
+            if len(ctx.failures) > n_fail:
+                break
     replies = drv.ask(lines)
     bad = []
     for (c, fmt, sym, call, names, classes, use_df), rep in zip(meta, replies):
@@ -395,6 +716,10 @@ def run(ctx):
             why = oracle(c)
             if why:
                 ctx.fail(why, c, {'kinds': sorted(pipes.kinds_in(c['spec']))})
+                return
+            why = oracle_verbatim(c)
+            if why:
+                ctx.fail(why, dict(c, verbatim=True), verbatim_tags(c))
                 return
         population_search(ctx)
     acc = accept_cases(ctx.rng, ctx.n(40, 400))
@@ -414,6 +739,6 @@ def run(ctx):
 def replay(ctx, path):
     obj = json.load(open(path))
     case = obj.get('case') or (obj.get('first_disagreement') or {}).get('case')
-    why = oracle(case)
+    why = oracle_verbatim(case) if case.get('verbatim') else oracle(case)
     print('oracle:', why)
     return 1 if why else 0
